@@ -196,6 +196,14 @@ func (s *Signature) JSONWebSignature() *jose.JSONWebSignature {
 	return s.jws
 }
 
+// Validate ensures the signature object actually holds a signature.
+func (s *Signature) Validate() error {
+	if s == nil || s.jws == nil {
+		return errors.New("empty signature")
+	}
+	return nil
+}
+
 // MarshalJSON provides the compact string signature ready to be
 // using as a JSON string.
 func (s *Signature) MarshalJSON() ([]byte, error) {
